@@ -1,7 +1,7 @@
 """C04 — the backend emits exactly the replies the protocol prescribes; peers stay in step."""
 from .srv import SrvFamily
 
-PROPS_MODULES = ["C04", "C04Owed", "Dispatch"]
+PROPS_MODULES = ["C04", "C04Owed", "Dispatch", "Helpers"]
 RULE = ("family `srv` (well-formed mode): every implemented request x NEED_REPLY x handler ok/fail after each negotiation prefix "
         "(none / virtio only / all protocol features / REPLY_ACK only / protocol features acknowledged but not offered), plus "
         "random histories of up to 10 requests; bytes written by the server are compared with the Spec's owed reply "
